@@ -75,6 +75,10 @@ for _n in (7, 8, 9):
 T('set-basic', 'A ::= SET { a INTEGER (0..7), b BOOLEAN, c NULL OPTIONAL }', feats={'basic', 'set'})
 T('set-tags', 'A ::= SET { a [5] INTEGER (0..7), b [1] BOOLEAN, c [APPLICATION 0] INTEGER (0..3) }',
   feats={'set', 'tag'}, tags='IMPLICIT TAGS')
+T('set-classes', 'A ::= SET { a [0] INTEGER (0..7), b [APPLICATION 31] INTEGER (0..7), c [PRIVATE 1] BOOLEAN, d [40] NULL }',
+  feats={'set', 'tag'}, tags='IMPLICIT TAGS')
+T('setof-choice', 'A ::= SET OF CHOICE { a [0] OCTET STRING (SIZE(0..2)), b [1] BOOLEAN }', feats={'setof', 'of', 'choice'},
+  tags='IMPLICIT TAGS')
 T('choice', 'A ::= CHOICE { a INTEGER (0..7), b BOOLEAN, c NULL }', feats={'basic', 'choice'})
 T('choice-ext', 'A ::= CHOICE { a INTEGER (0..7), b BOOLEAN, ..., c INTEGER (0..300), d NULL }',
   feats={'basic', 'choice', 'ext'})
